@@ -343,8 +343,12 @@ def _is_mask_term(t):
     """integer term whose value is given by if-then-else over numerals (region-constant)"""
     if z3.is_int_value(t):
         return True
-    if z3.is_app(t) and t.decl().kind() == z3.Z3_OP_ITE:
-        return _is_mask_term(t.arg(1)) and _is_mask_term(t.arg(2))
+    if z3.is_app(t):
+        k = t.decl().kind()
+        if k == z3.Z3_OP_ITE:
+            return _is_mask_term(t.arg(1)) and _is_mask_term(t.arg(2))
+        if k in (z3.Z3_OP_ADD, z3.Z3_OP_MUL, z3.Z3_OP_SUB, z3.Z3_OP_UMINUS, z3.Z3_OP_MOD, z3.Z3_OP_IDIV):
+            return all(_is_mask_term(c) for c in t.children())
     return False
 
 
@@ -1110,7 +1114,13 @@ def _skeleton_model(kind):
         if key not in _SKEL:
             _SKEL[key] = z3.Function(f"{kind}!{len(_SKEL)}", Vox, B_)
         cur().event("skeleton", kind)
-        out = VArr(_SKEL[key](arr.space.x), "bool", arr.space)
+        sk = _SKEL[key](arr.space.x)
+        if kind == "skeletonize":
+            out = VArr(sk, "bool", arr.space)  # skimage 0.22: 2-D skeleton is a bool array
+        elif arr.dtype_name == "bool":
+            out = VArr(z3.If(sk, z3.IntVal(255), z3.IntVal(0)), "uint8", arr.space)  # 3-D skeleton of a bool mask: uint8 0/255 (observed)
+        else:
+            out = VArr(z3.If(sk, z3.IntVal(1), z3.IntVal(0)), "uint8", arr.space)  # 3-D skeleton of a 0/1 integer mask: uint8 0/1 (observed)
         out.skeleton_of = (kind, arr)
         return out
     return f
